@@ -123,8 +123,8 @@ def build0(ux, d):
                 "face_node_connectivity": (("n_face", "n_max_face_nodes"), conn),
             }
         )
-        if d.get("coords"):
-            ds = ds.set_coords(["node_lon", "node_lat"])
+        ds = coord_structure(ds, d, dict(lon="node_lon", lat="node_lat", flon="face_lon", flat="face_lat", node="n_node",
+                                         face="n_face", width="n_max_face_nodes"))
         return ux.Grid.from_dataset(ds, source_grid_spec=d["spec"])
     if via == "ugrid":
         ds = xr.Dataset()
@@ -139,10 +139,64 @@ def build0(ux, d):
             conn, dims=["nMesh2_face", "nMaxMesh2_face_nodes"],
             attrs=dict(cf_role="face_node_connectivity", start_index=0, _FillValue=INT_FILL),
         )
-        if d.get("coords"):
-            ds = ds.set_coords(["Mesh2_node_x", "Mesh2_node_y"])
+        if cflags(d) & {"face", "face_vars"}:
+            ds["Mesh2"].attrs["face_coordinates"] = "Mesh2_face_x Mesh2_face_y"
+        ds = coord_structure(ds, d, dict(lon="Mesh2_node_x", lat="Mesh2_node_y", flon="Mesh2_face_x", flat="Mesh2_face_y",
+                                         node="nMesh2_node", face="nMesh2_face", width="nMaxMesh2_face_nodes"))
         return ux.Grid.from_dataset(ds)
     raise ValueError("unknown builder " + str(via))
+
+
+CFLAGS = ["node", "face", "face_vars", "face_index", "face_index_shifted", "width_index", "node_index", "node_extra", "scalar",
+          "scalar_other"]
+
+
+def cflags(d):
+    """which variables of the SOURCE dataset are xarray coordinates (`coords=True` is the old spelling of ["node"])"""
+    f = set(d.get("cstruct") or ())
+    if d.get("coords"):
+        f.add("node")
+    return f
+
+
+def coord_structure(ds, d, n):
+    """turn variables of the source dataset into xarray coordinates / add index and scalar coordinates, on every
+    dimension a compared variable has.  The values of node_lon / node_lat / face_node_connectivity are untouched."""
+    f = cflags(d)
+    nf = ds.sizes[n["face"]]
+    if f & {"face", "face_vars"}:
+        ds[n["flon"]] = ((n["face"],), np.array([1.5 * i - 20.0 for i in range(nf)]))
+        ds[n["flat"]] = ((n["face"],), np.array([0.5 * i + 3.0 for i in range(nf)]))
+    if "node" in f:
+        ds = ds.set_coords([n["lon"], n["lat"]])
+    if "face" in f:
+        ds = ds.set_coords([n["flon"], n["flat"]])
+    if "face_index" in f or "face_index_shifted" in f:
+        ds = ds.assign_coords({n["face"]: np.arange(nf) + (100 if "face_index_shifted" in f else 0)})
+    if "width_index" in f:
+        ds = ds.assign_coords({n["width"]: np.arange(ds.sizes[n["width"]])})
+    if "node_index" in f:
+        ds = ds.assign_coords({n["node"]: np.arange(ds.sizes[n["node"]])})
+    if "node_extra" in f:
+        ds = ds.assign_coords(node_id=((n["node"],), np.arange(ds.sizes[n["node"]]) * 2))
+    if "scalar" in f or "scalar_other" in f:
+        ds = ds.assign_coords(time=(7.0 if "scalar_other" in f else 0.0))
+    return ds
+
+
+def coords_of(da):
+    """the xarray coordinates attached to one compared variable: sorted (name, values as double bit patterns)"""
+    out = []
+    for k in sorted(map(str, da.coords)):
+        v = np.asarray(da.coords[k].values).ravel()
+        try:
+            vals = [bits(x) for x in v.astype(np.float64)]
+        except Exception:  # noqa: BLE001  (strings, dates …): a stable numeric stand-in
+            import hashlib
+
+            vals = [int(hashlib.sha1(repr(x).encode()).hexdigest()[:12], 16) for x in v.tolist()]
+        out.append((k, vals))
+    return out
 
 
 def observe(g):
@@ -171,6 +225,7 @@ def observe(g):
         conn=[int(x) for x in conn.ravel()],
         coordVars=cv,
         coords=cs,
+        cvals=[coords_of(lo), coords_of(la), coords_of(co)],
         dims_ok=bool(dims_ok),
         int_conn=conn.dtype.kind in "iu",
     )
@@ -201,7 +256,11 @@ def enc_bgrid(o):
 def enc_grid(o):
     spec = [ord(c) for c in repr(o["spec"])]
     return " ".join([enc_ints(spec), enc_ints(o["lon"]), enc_ints(o["lat"]), str(o["shape"][0]), str(o["shape"][1]),
-                     enc_ints(o["conn"]), "1" if o["coordVars"] else "0"])
+                     enc_ints(o["conn"])] + [enc_coords(c) for c in o["cvals"]])
+
+
+def enc_coords(cl):
+    return " ".join([str(len(cl))] + [enc_ints([ord(ch) for ch in k]) + " " + enc_ints(v) for k, v in cl])
 
 
 def small(o):
@@ -270,7 +329,7 @@ def judge_objs(ctx, kind, a, oa, da, b, ob, db, extra=None):
     ds, v1, v2, v3, m, bm, bk = ans.split(";")
     diff, cs = ds.split()
     meq, mne, masis = [x == "1" for x in m.split()]
-    beq_ab, beq_ba, faith_ab, faith_ba, mcoords = [x == "1" for x in bm.split()]
+    beq_ab, beq_ba, faith_ab, faith_ba, mcoords, mconnda = [x == "1" for x in bm.split()]
     faithful = faith_ab and faith_ba
     ctx.hit("backing:" + bk)
     if not faithful:
@@ -285,18 +344,21 @@ def judge_objs(ctx, kind, a, oa, da, b, ob, db, extra=None):
     ctx.hit("eq=True" if e1 else "eq=False")
     if cs == "coords-differ":
         ctx.hit("coords-structure-differs")
-    if oa["coordVars"] == 1 or ob["coordVars"] == 1:
-        ctx.hit("coords-as-xarray-coordinates")
-    if oa["coordVars"] is None or ob["coordVars"] is None:
-        ctx.hit("other-coords-structure")
+    for o in (oa, ob):
+        for var, names in zip(("lon", "lat", "conn"), o["coords"]):
+            for nm in names:
+                ctx.hit(f"coord-on-{var}:{nm}")
     if masis != mcoords:
         ctx.hit("pair-on-which-`or`-and-`and`-differ")
     if mcoords != meq:
         ctx.hit("pair-on-which-DataArray.equals-and-Variable.equals-differ")
+    if mconnda != meq:
+        ctx.hit("pair-on-which-connectivity-as-DataArray-differs")
     if has_nan(oa) or has_nan(ob):
         ctx.hit("with-NaN")
     impl = dict(eq_ab=e1, ne_ab=n1, eq_ba=e2, ne_ba=n2, a=small(oa), b=small(ob))
-    model = dict(eq=meq, ne=mne, asis_eq=masis, dataarray_equals_version_eq=mcoords, differs=diff, backing=bk, eq_with_lazy_shortcut=[beq_ab, beq_ba],
+    model = dict(eq=meq, ne=mne, asis_eq=masis, dataarray_equals_version_eq=mcoords, connectivity_as_dataarray_eq=mconnda,
+                 differs=diff, backing=bk, eq_with_lazy_shortcut=[beq_ab, beq_ba],
                  dask_names_faithful=faithful)
     bsuf = "" if bk == "numpy+numpy" or cs == "coords-differ" else "/backing=" + bk
     failed = False
@@ -321,12 +383,12 @@ def judge_objs(ctx, kind, a, oa, da, b, ob, db, extra=None):
     if v3 != "ok":
         failed = True
         ctx.fail(f"C20/asymmetric/differs={diff}", f"a == b is {e1} but b == a is {e2}", inp, impl, model, ["eq_symm"])
-    if not failed and ok_struct and oa["coordVars"] is not None and ob["coordVars"] is not None and (e1, n1) != (meq, mne):
+    if not failed and ok_struct and (e1, n1) != (meq, mne):
         ctx.mismatch("C20/model-vs-impl", inp, impl, model)
     if not failed and not faithful:
         # the invariant behind `backing_irrelevant` is broken although this pair's outputs are still right
         ctx.mismatch("C20/dask-names-faithful", inp, impl, model)
-    if ok_struct and oa["coordVars"] is not None and ob["coordVars"] is not None and (e1, e2) != (beq_ab, beq_ba):
+    if ok_struct and (e1, e2) != (beq_ab, beq_ba):
         ctx.hit("lazy-shortcut-model-differs-from-impl")
     if not ok_struct:
         ctx.hit("non-canonical-dims-or-dtype")
@@ -734,6 +796,65 @@ def projection_pairs(rng, A):
 
 
 # --------------------------------------------------------------------------------------
+# which variables of the source dataset are xarray coordinates — on EVERY dimension a compared variable has
+# --------------------------------------------------------------------------------------
+
+
+def coord_structure_pairs(rng, A, thorough):
+    """identical values, source datasets differing only in their coordinate structure (node dim: node_lon/lat as
+    coordinates of one another, an index / an extra coordinate on n_node; face dim: face_lon/face_lat via set_coords, an
+    index coordinate on n_face — also with other VALUES on the two sides; width dim: index coordinate; scalar
+    coordinates, equal or different) must be EQUAL; the same with exactly one entry of lon / lat / connectivity changed
+    must stay UNEQUAL"""
+    if A["via"] not in ("dataset", "ugrid"):
+        A = dict(A, via="ugrid") if rng.random() < 0.5 else dict(A, via="dataset", spec="UGRID")
+    nn, nf = len(A["lon"]), len(A["conn"])
+    w = len(A["conn"][0])
+
+    def cp(d, **kw):
+        e = json.loads(json.dumps(d))
+        e.pop("coords", None)
+        e.update(kw)
+        return e
+
+    def structure():
+        k = rng.choice([0, 1, 1, 2, 3])
+        s = set(rng.sample(CFLAGS, k))
+        if {"face_index", "face_index_shifted"} <= s:
+            s.discard("face_index")
+        if {"scalar", "scalar_other"} <= s:
+            s.discard("scalar")
+        return sorted(s)
+
+    out = []
+    singles = [[f] for f in CFLAGS]
+    rng.shuffle(singles)
+    for s1 in singles[: (len(singles) if thorough else 5)]:
+        out.append(("cstruct/identical/" + s1[0] + "-vs-plain", cp(A, cstruct=s1), cp(A, cstruct=[])))
+    out.append(("cstruct/identical/face-index-values-differ", cp(A, cstruct=["face_index"]), cp(A, cstruct=["face_index_shifted"])))
+    out.append(("cstruct/identical/scalar-values-differ", cp(A, cstruct=["scalar"]), cp(A, cstruct=["scalar_other"])))
+    for _ in range(3 if thorough else 2):
+        out.append(("cstruct/identical/random", cp(A, cstruct=structure()), cp(A, cstruct=structure())))
+    for _ in range(2 if thorough else 1):
+        i = rng.randrange(nn)
+        lon = list(A["lon"]); lon[i] = change_val(rng, lon[i])
+        out.append(("cstruct/one-lon", cp(A, cstruct=structure()), cp(A, lon=lon, cstruct=structure())))
+        i = rng.randrange(nn)
+        lat = list(A["lat"]); lat[i] = change_val(rng, lat[i])
+        s = structure()
+        out.append(("cstruct/one-lat/same-structure", cp(A, cstruct=s), cp(A, lat=lat, cstruct=s)))
+        conn = [list(r) for r in A["conn"]]
+        f, j = rng.randrange(nf), rng.randrange(w)
+        old = conn[f][j]
+        conn[f][j] = rng.choice([v for v in range(nn) if v != old]) if (old == INT_FILL or rng.random() < 0.7) else INT_FILL
+        out.append(("cstruct/one-conn", cp(A, cstruct=structure()), cp(A, conn=conn, cstruct=structure())))
+    # … and chunked
+    S = rand_state(rng, nn, nf)
+    out.append(("cstruct/identical/random/chunked", cp(A, cstruct=structure(), ops=S), cp(A, cstruct=structure(), ops=rand_state(rng, nn, nf))))
+    return out
+
+
+# --------------------------------------------------------------------------------------
 # backing states: numpy / chunk()ed / copied / sub-selected / lazily opened
 # --------------------------------------------------------------------------------------
 
@@ -859,13 +980,13 @@ def file_states(ctx, ux, f, thorough):
     # near-equal pairs in the file's own format
     w = o0["shape"][1]
     rows = [o0["conn"][i * w:(i + 1) * w] for i in range(nf)]
-    if o0["coordVars"] is None or not isinstance(o0["spec"], str):
+    if not isinstance(o0["spec"], str):
         return
-    A = desc("dataset", o0["lon"], o0["lat"], rows, spec=o0["spec"], coords=bool(o0["coordVars"]))
+    A = desc("dataset", o0["lon"], o0["lat"], rows, spec=o0["spec"], cstruct=rng.sample(CFLAGS, rng.randint(0, 3)))
     for kind, da, db in backing_pairs(rng, A, thorough)[: (12 if thorough else 6)]:
         run_pair(ctx, ux, "file-arrays/" + kind, da, db)
     # the opened file against its own arrays with one longitude changed, both chunk()ed the same way
-    if o0["coordVars"] == 0:
+    if True:  # same format, same values: equal whatever coordinates the reader / the dataset attached
         ch = rand_chunk(rng, nn, nf)
         i = rng.randrange(nn)
         lon = list(o0["lon"]); lon[i] = change_val(rng, lon[i], "ulp+")
@@ -945,7 +1066,10 @@ def run(ctx):
                 "placements, float32 storage, coordinates stored as data variables / xarray coordinates, after derived attributes "
                 "were computed; all ordered pairs of a small family (every combination of differing fields); g==g, copies, "
                 "non-Grid operands; pairs that agree under a PROJECTION of the arrays (same flattened connectivity in another "
-                "(n_face, width) shape incl. trailing fills, permuted / reversed rows, transposed table, same multiset, same sum, "
+                "(n_face, width) shape incl. trailing fills; identical and one-entry-mutated pairs whose SOURCE DATASETS differ in which "
+                "variables are xarray coordinates, on every dimension of a compared variable (node_lon/lat as coordinates, index / extra "
+                "coordinates on n_node, face_lon/face_lat via set_coords, index coordinate on n_face with equal or other values, on "
+                "n_max_face_nodes, scalar coordinates), through from_dataset and the UGRID reader; permuted / reversed rows, transposed table, same multiset, same sum, "
                 "only a middle row / middle entry changed, reversed coordinates, same lengths only); every kind of pair again with the grids put into other BACKING STATES by public calls "
                 "(Grid.chunk with random n_node/n_edge/n_face: same calls on both sides, different arguments, one side only; "
                 "copy(); isel; derived tables materialised; files opened lazily with chunks={}), the oracle being the value-level "
@@ -977,7 +1101,8 @@ def run(ctx):
     thorough = ctx.thorough or ctx.escalate
     for mi, m in enumerate(ms):
         A = base_from_mesh(rng, m)
-        for kind, da, db in variants(rng, A, thorough) + reshape_pairs(rng, A, 3 if thorough else 2) + projection_pairs(rng, A):
+        for kind, da, db in (variants(rng, A, thorough) + reshape_pairs(rng, A, 3 if thorough else 2) + projection_pairs(rng, A)
+                             + coord_structure_pairs(rng, A, thorough)):
             touches = tuple(rng.sample(TOUCHES, 2)) if rng.random() < 0.25 else ()
             r = run_pair(ctx, ux, kind, da, db, touches)
             if r and kind == "identical":
